@@ -12,8 +12,8 @@ func init() { register("C11", runC11) }
 
 func runC11(c *Ctx, tier string) {
 	r := NewReport("C11", "other", tier, c)
-	r.Explanation = "(1) lifecycle: in all three life-cycle tables MaybeConfigure(new instance, lint name) precedes CheckApplies and a configuration error yields Fatal carrying the error's own text with no lint method called — for certificate, CRL and OCSP lints alike (decision tables evaluated on source × scope × configuration outcome × applicability × window); (2) deserialise-table: the decision table of Configuration.deserializeConfigInto over section ∈ {absent, a table, any other TOML value} × Unmarshal outcome: absent leaves the target untouched (only higher-scoped references are resolved), a non-table yields an error and Unmarshal is not called, an Unmarshal error is returned, success continues with resolveHigherScopedReferences; Configure returns nil iff that returns nil and otherwise an error naming the namespace; MaybeConfigure is a no-op for lints that are not Configurable and otherwise configures exactly the value returned by the instance's Configure(); (3) no-panic: none of the functions reachable from MaybeConfigure in package lint contains a type assertion without comma-ok on a value obtained from the TOML tree, an explicit panic, or an index without guard (the remaining single-result assertions are listed with their guard); (4) locality: every Configure() method of a registered lint returns its own receiver (or a pointer into it) and every constructor returns a fresh instance, so options cannot leak between runs or registries; Filter hands the configuration to the new registry on every path; (5) example: defaultConfiguration ranges over the lintsByName tables of all three kinds and emits a section for every instance that is Configurable. Does not decide TOML validity of the generated example, go-toml's own type errors, or that an option changes the lint's behaviour."
-	r.Rule("lifecycle; deserialise-table; configure-wrap; maybe-configure; no-panic; configure-returns-receiver; fresh-instance; filter-config; example-coverage")
+	r.Explanation = "(1) lifecycle: in all three life-cycle tables MaybeConfigure(new instance, lint name) precedes CheckApplies and a configuration error yields Fatal carrying the error's own text with no lint method called — for certificate, CRL and OCSP lints alike (decision tables evaluated on source × scope × configuration outcome × applicability × window); (2) deserialise-table: the decision table of Configuration.deserializeConfigInto over section ∈ {absent, a table, any other TOML value} × Unmarshal outcome: absent leaves the target untouched (only higher-scoped references are resolved), a non-table yields an error and Unmarshal is not called, an Unmarshal error is returned, success continues with resolveHigherScopedReferences; Configure returns nil iff that returns nil and otherwise an error naming the namespace; MaybeConfigure is a no-op for lints that are not Configurable and otherwise configures exactly the value returned by the instance's Configure(); (3) no-panic: none of the functions reachable from MaybeConfigure in package lint contains a type assertion without comma-ok on a value obtained from the TOML tree, an explicit panic, or an index without guard (the remaining single-result assertions are listed with their guard); (4) locality: every Configure() method of a registered lint returns its own receiver (or a pointer into it) and every constructor returns a fresh instance, so options cannot leak between runs or registries; Filter hands the configuration to the new registry on every path; (5) example: defaultConfiguration ranges over the lintsByName tables of all three kinds and emits a section for every instance that is Configurable. Does not decide TOML validity of the generated example, go-toml's own type errors, or that an option changes the lint's behaviour. (0) no carry-over between runs: the interprocedural MOD summaries (C05 rules 1-2) show that no lint method writes a package-level variable or the linted object, so a run under one configuration cannot influence a later run under another."
+	r.Rule("no-global-write; object-read-only; lifecycle; deserialise-table; configure-wrap; maybe-configure; no-panic; configure-returns-receiver; fresh-instance; filter-config; example-coverage")
 	r.Trusted = []string{"go/ssa", "go-toml Get/Unmarshal (type errors are returned, not panics)", "reflect-based resolution of higher-scoped configurations"}
 
 	lcReport(c, r, "lifecycle", func(class string) bool { return true })
@@ -22,6 +22,11 @@ func runC11(c *Ctx, tier string) {
 	cs := BuildCensus(c)
 	r.Floor("registrations", 370, len(cs.Regs))
 	c11Configurables(c, r, cs)
+	// "from the next run on" / "nothing else changes": a run under one configuration
+	// leaves no trace for later runs — no lint method writes package-level state or
+	// the linted object (C05 rules 1-2; a memo keyed by anything but the full
+	// configuration would carry one run's settings into the next)
+	c05Effects(c, r, cs, NewEffects(c))
 	freshInstances(c, r, cs)
 	filterChecks(c, r, false)
 	c11Example(c, r)
